@@ -13,7 +13,7 @@ PID = 'C17'
 META = {
     'technique': 'Coq proof (invariants over all histories of an executable ResponseFuture model) + per-step correspondence with the real class on exhaustive plan x pool-state scopes',
     'level_text': 'C17_order / C17_order_history / C17_no_repeat / C17_other_sends_are_tasks / C17_retry_task_needs_decision / C17_exhaustion_lists_every_host / '
-                  'C17_exhaustion / C17_errors_only_plan_hosts / C17_target_only proved for every plan, pool-state assignment, retry-policy '
+                  'C17_exhaustion / C17_errors_only_plan_hosts / C17_next_page_fresh_plan / C17_order_every_page / C17_replan_master_nodup / C17_target_only proved for every plan, pool-state assignment, retry-policy '
                   'oracle and history (responses, executor runs, speculative firings, pool changes) of the FutB model; model tied to '
                   'cluster.py by step-by-step differential execution of the real ResponseFuture.',
     'level_note': 'Trusted: Coq kernel, the fake session/pool/connection/timer harness, py2coq for uses_keyspace_flag. Not modelled: '
